@@ -55,10 +55,11 @@ impl Serialize for SecretStorageEncryptionAlgorithm {
                 SecretStorageEncryptionAlgorithmSerHelper { algorithm, properties }
                     .serialize(serializer)
             }
-            Self::_Custom(properties) => {
-                SecretStorageEncryptionAlgorithmSerHelper { algorithm, properties }
-                    .serialize(serializer)
+            Self::_Custom(custom) => SecretStorageEncryptionAlgorithmSerHelper {
+                algorithm,
+                properties: &custom.properties,
             }
+            .serialize(serializer),
         }
     }
 }
